@@ -1,11 +1,12 @@
 (* C14, last clause ("every TCP property above holds unchanged when initial sequence numbers sit just
    below 2^31 or 2^32"): lock-step TCP traces (Corr/TcpTrace.v) whose ISS / IRS / window edges are
-   ALL placed across 2^31 or 2^32, judged by the data-integrity monitor of C01 and the window
-   monitor of C04 together.  C04's own known-finding pattern (edge rounding) is not C14's business
-   and is not reported here. *)
+   ALL placed across 2^31 or 2^32, judged by the data-integrity monitor of C01, the window
+   monitor of C04 and the close/stall monitor of C02 together.  The other properties' own
+   known-finding patterns (C04 edge rounding, C02 zero-window stall) are not C14's business and are
+   not reported here. *)
 From Coq Require Import ZArith List Bool.
 From NP Require Export Model.Seqnum Model.Tcp Corr.TcpTrace.
-From NP Require Corr.C01 Corr.C04.
+From NP Require Corr.C01 Corr.C04 Corr.C02.
 Import ListNotations.
 Open Scope Z_scope.
 
@@ -14,7 +15,9 @@ Definition case := TcpTrace.case.
 Definition spec (c : case) : Z :=
   let a := C01.spec c in
   let b := C04.spec c in
-  if negb (a =? 0) then 1 else if (b =? 0) || (b =? 2) then 0 else 1.
+  let d := C02.spec c in
+  if negb (a =? 0) then 1 else if negb ((b =? 0) || (b =? 2)) then 1
+  else if (d =? 0) || (d =? 2) then 0 else 1.
 
 (* non-trivial: data moved and a boundary was actually crossed by a sequence number in the trace *)
 Definition crosses (x y : Z) : bool :=
